@@ -301,16 +301,16 @@ theorem escAll_succ (n : Nat) (ih : EscAll n) : EscAll (n + 1) := by
     | While c ss => exact (ih.evalWhile σ sc c ss).mono fun y hy => List.mem_append_right _ hy
     | For lhs it ss =>
       refine EscSat.bind fun v σ1 => ?_
-      simp only []
       split
       · trivial
       · trivial
       · exact (ih.evalFor _ _ _ _ _).mono fun y hy => List.mem_append_right _ (List.mem_append_right _ hy)
     | Break l => exact List.mem_cons_self
     | Continue l => exact List.mem_cons_self
-    | Func name nl args collect ss => exact EscSat.bind fun _ _ => by
-        simp only []
-        exact EscSat.bind fun _ _ => trivial
+    | Func name nl args collect ss =>
+      refine EscSat.bind fun _ σ0 => ?_
+      simp only [State.alloc]
+      exact EscSat.bind fun _ _ => trivial
     | Return l e => exact EscSat.bind fun _ _ => List.mem_cons_self
   · intro σ sc bs els
     conv => arg 2; unfold evalIf
@@ -378,5 +378,422 @@ theorem block_escape_from_list {n : Nat} {σ σ' : State} {sc : List Addr} {bs :
 /-- an instance: the body `if true { break; }` with the `break` stored at 3:5 runs to `.brk (3,5)` -/
 example : ∃ σ', evalStmts 8 progState [0]
     [.If [.mk (.mk (.Bool true) (2, 6)) [.Break (3, 5)]] none] = .ok (.brk (3, 5)) σ' := ⟨_, by with_unfolding_all rfl⟩
+
+/-! ## the text at a token start: a keyword / operator token starts with the characters that spell it -/
+
+/-- the spelling of the tokens the attribution theorems are about: the jump keywords, the binary operators, the
+    op-assignment operators (`none` for every other token) -/
+def tokText : Token → Option (List Char)
+  | .Break => some c!"break" | .Continue => some c!"continue" | .Return => some c!"return"
+  | .Sum => some c!"+" | .Sub => some c!"-" | .Mul => some c!"*" | .Div => some c!"/" | .Mod => some c!"%"
+  | .AmpAmp => some c!"&&" | .PipePipe => some c!"||" | .EqualsEquals => some c!"==" | .BangEquals => some c!"!="
+  | .GreaterThan => some c!">" | .GreaterThanEquals => some c!">=" | .LessThan => some c!"<"
+  | .LessThanEquals => some c!"<=" | .EqualsEqualsEquals => some c!"===" | .BangEqualsEquals => some c!"!=="
+  | .SumEquals => some c!"+=" | .SubEquals => some c!"-=" | .MulEquals => some c!"*=" | .DivEquals => some c!"/="
+  | .ModEquals => some c!"%="
+  | _ => none
+
+/-- every binary operator and every op-assignment operator has a spelling -/
+example : (∀ op : BinaryOp, (tokText (binTok op)).isSome) ∧
+    (∀ op ∈ [BinaryOp.Sum, .Sub, .Mul, .Div, .Mod], (tokText (assignTok op)).isSome) := by
+  constructor
+  · intro op; cases op <;> rfl
+  · decide
+
+theorem lookupAssoc_mem {α β} [DecidableEq α] {k : α} {v : β} : ∀ {l : List (α × β)}, lookupAssoc k l = some v → (k, v) ∈ l
+  | [], h => by simp [lookupAssoc] at h
+  | (k', v') :: r, h => by
+    unfold lookupAssoc at h
+    split at h
+    · next hk => cases h; subst hk; exact List.mem_cons_self
+    · exact List.mem_cons_of_mem _ (lookupAssoc_mem h)
+
+theorem single_text {c : Char} {t : Token} {w : List Char} (h : matchSingle c = some t) (hw : tokText t = some w) : w = [c] := by
+  have := (by decide : ∀ p ∈ Gen.singleSym, tokText p.2 = none ∨ tokText p.2 = some [p.1]) _ (lookupAssoc_mem h)
+  rcases this with h' | h' <;> simp_all
+theorem double_text {a b : Char} {t : Token} {w : List Char} (h : matchDouble a b = some t) (hw : tokText t = some w) :
+    w = [a, b] := by
+  have := (by decide : ∀ p ∈ Gen.doubleSym, tokText p.2 = none ∨ tokText p.2 = some [p.1.1, p.1.2]) _ (lookupAssoc_mem h)
+  rcases this with h' | h' <;> simp_all
+theorem triple_text {a b c : Char} {t : Token} {w : List Char} (h : matchTriple a b c = some t) (hw : tokText t = some w) :
+    w = [a, b, c] := by
+  have := (by decide : ∀ p ∈ Gen.tripleSym, tokText p.2 = none ∨ tokText p.2 = some [p.1.1, p.1.2.1, p.1.2.2]) _
+    (lookupAssoc_mem h)
+  rcases this with h' | h' <;> simp_all
+theorem keyword_text {w' w : List Char} (hw : tokText (keywordOrIdent w') = some w) : w = w' := by
+  unfold keywordOrIdent at hw
+  split at hw
+  · next t h =>
+    have := (by decide : ∀ p ∈ Gen.keywords, tokText p.2 = none ∨ tokText p.2 = some p.1) _ (lookupAssoc_mem h)
+    rcases this with h' | h' <;> simp_all
+  · simp [tokText] at hw
+
+theorem peek_next {s : Scanner} {c1 c2 : Char} {r : List Char} (hr : s.rest = c1 :: r) (h : s.next.peek = some c2) :
+    ∃ r', r = c2 :: r' := by
+  unfold Scanner.peek at h
+  rw [Scanner.next_rest, hr] at h
+  cases r with
+  | nil => simp at h
+  | cons x r' => simp at h; subst h; exact ⟨r', rfl⟩
+
+theorem next_rest_cons {s : Scanner} {c1 : Char} {r : List Char} (hr : s.rest = c1 :: r) : s.next.rest = r := by
+  rw [Scanner.next_rest, hr]; rfl
+
+theorem single_prefix {c : Char} {t : Token} {w r : List Char} (h : matchSingle c = some t) (hw : tokText t = some w) :
+    w <+: c :: r := by rw [single_text h hw]; exact ⟨_, rfl⟩
+theorem double_prefix {a b : Char} {t : Token} {w r : List Char} (h : matchDouble a b = some t) (hw : tokText t = some w) :
+    w <+: a :: b :: r := by rw [double_text h hw]; exact ⟨_, rfl⟩
+theorem triple_prefix {a b c : Char} {t : Token} {w r : List Char} (h : matchTriple a b c = some t)
+    (hw : tokText t = some w) : w <+: a :: b :: c :: r := by rw [triple_text h hw]; exact ⟨_, rfl⟩
+
+/-- closes a leaf of the analysis of `lexSym` / `lexMultiSym` -/
+macro "sym_leaf" : tactic =>
+  `(tactic| first
+    | exact single_prefix (by assumption) (by assumption)
+    | exact double_prefix (by assumption) (by assumption)
+    | exact triple_prefix (by assumption) (by assumption))
+
+theorem lexMultiSym_text {c1 : Char} {s s' : Scanner} {t : Token} {r w : List Char} (hr : s.rest = c1 :: r)
+    (h : lexMultiSym c1 s = (some t, s')) (hw : tokText t = some w) : w <+: c1 :: r := by
+  unfold lexMultiSym at h
+  simp only at h
+  split at h
+  · cases h
+  · next c2 h2 =>
+    obtain ⟨r', rfl⟩ := peek_next hr h2
+    have hr2 := next_rest_cons hr
+    split at h
+    · split at h
+      · cases h
+      · next c3 h3 =>
+        obtain ⟨r'', rfl⟩ := peek_next hr2 h3
+        injection h with h _
+        sym_leaf
+    · split at h
+      · injection h with h _; injection h with h; subst h
+        sym_leaf
+      · next c3 h3 =>
+        obtain ⟨r'', rfl⟩ := peek_next hr2 h3
+        split at h
+        · injection h with h _; injection h with h; subst h
+          sym_leaf
+        · injection h with h _; injection h with h; subst h
+          sym_leaf
+
+theorem lexSym_text {c1 : Char} {s s' : Scanner} {t : Token} {r w : List Char} (hr : s.rest = c1 :: r)
+    (h : lexSym c1 s = (some t, s')) (hw : tokText t = some w) : w <+: c1 :: r := by
+  unfold lexSym at h
+  simp only at h
+  split at h
+  · exact lexMultiSym_text hr h hw
+  · next t1 h1 =>
+    split at h
+    · injection h with h _; injection h with h; subst h
+      sym_leaf
+    · next c2 h2 =>
+      obtain ⟨r', rfl⟩ := peek_next hr h2
+      have hr2 := next_rest_cons hr
+      split at h
+      · injection h with h _; injection h with h; subst h
+        sym_leaf
+      · split at h
+        · injection h with h _; injection h with h; subst h
+          sym_leaf
+        · next c3 h3 =>
+          obtain ⟨r'', rfl⟩ := peek_next hr2 h3
+          split at h
+          · injection h with h _; injection h with h; subst h
+            sym_leaf
+          · injection h with h _; injection h with h; subst h
+            sym_leaf
+
+/-- **a token with a spelling starts with its spelling**: the text after whitespace and comments begins with `w` -/
+theorem nextToken_text {s0 s' : Scanner} {sp : Span} {w : List Char} (h : nextToken s0 = .tok sp s')
+    (hw : tokText sp.tok = some w) : w <+: s0.skipWs.rest := by
+  unfold nextToken at h
+  simp only at h
+  generalize s0.skipWs = s at h ⊢
+  split at h
+  · cases h
+  · next c r hr =>
+    split at h
+    · cases h
+    · next t s'' hres =>
+      injection h with h1 h2
+      subst h1
+      simp only at hw
+      rw [hr]
+      split at hres
+      · injection hres with hres; injection hres with ht _; subst ht; simp [tokText] at hw
+      · split at hres
+        · injection hres with hres; injection hres with ht _; subst ht
+          rw [keyword_text hw, hr]
+          exact List.takeWhile_prefix _
+        · split at hres
+          · unfold lexInt at hres
+            simp only at hres
+            split at hres
+            · injection hres with hres; injection hres with ht _; subst ht; simp [tokText] at hw
+            · cases hres
+          · split at hres
+            · unfold lexStr at hres
+              simp only at hres
+              split at hres
+              · cases hres
+              · simp only [Bool.false_eq_true, if_false] at hres
+                injection hres with hres; injection hres with ht _; subst ht; simp [tokText] at hw
+            · split at hres
+              · unfold lexStr at hres
+                simp only at hres
+                split at hres
+                · cases hres
+                · simp only [if_true] at hres
+                  injection hres with hres; injection hres with ht _; subst ht; simp [tokText] at hw
+              · split at hres
+                · next t' s3 hsym =>
+                  injection hres with hres; injection hres with ht _; subst ht
+                  exact lexSym_text hr hsym hw
+                · cases hres
+
+/-- a token of kind `t` at `l` (`TokIs`), `t` with spelling `w`: `l = posOf src i` and the source text from offset `i`
+    starts with `w` -/
+theorem TokIs.text {src : List Char} {t : Token} {l : Loc} {w : List Char} (h : TokIs src t l) (hw : tokText t = some w) :
+    ∃ i, i < src.length ∧ l = posOf src i ∧ w <+: src.drop i := by
+  obtain ⟨sp, k', i, j, _, _, ht, _, _, hi, _, hn, hs, hl⟩ := h
+  refine ⟨i, hi, hl, ?_⟩
+  have := nextToken_text hn (by rw [ht]; exact hw)
+  rwa [hs, scan_rest] at this
+
+/-! ## the attribution theorems of C18Attrib.lean on SOURCE TEXT -/
+
+/-- the spelling of a binary operator -/
+def binText : BinaryOp → List Char
+  | .Sum => c!"+" | .Sub => c!"-" | .Mul => c!"*" | .Div => c!"/" | .Mod => c!"%" | .And => c!"&&" | .Or => c!"||"
+  | .Eq => c!"==" | .Ne => c!"!=" | .Gt => c!">" | .Gte => c!">=" | .Lt => c!"<" | .Lte => c!"<="
+  | .RefEq => c!"===" | .RefNe => c!"!=="
+
+theorem tokText_binTok (op : BinaryOp) : tokText (binTok op) = some (binText op) := by cases op <;> rfl
+
+theorem mem_kwsSL_of_mem {st : Stmt} {y : Token × Loc} : ∀ {stmts : List Stmt}, st ∈ stmts → y ∈ kwsS st → y ∈ kwsSL stmts
+  | x :: r, hm, hy => by
+    rw [kwsSL, List.mem_append]
+    rcases List.mem_cons.mp hm with rfl | hm
+    · exact Or.inl hy
+    · exact Or.inr (mem_kwsSL_of_mem hm hy)
+
+/-- the body of a function statement of the program is code of the program -/
+theorem func_body_sub {stmts body : List Stmt} {name : List Char} {nl : Loc} {args : List Expr} {collect : Bool}
+    (h : Stmt.Func name nl args collect body ∈ stmts) : ∀ y, y ∈ kwsSL body → y ∈ kwsSL stmts := fun y hy =>
+  mem_kwsSL_of_mem h (by simp only [kwsS, List.mem_cons, List.mem_append]; exact Or.inr (Or.inr hy))
+
+section src
+variable {src : List Char} {stmts : List Stmt}
+
+/-- **(1) on source text.**  the source parses to `stmts`, the tree contains a `BinaryOp op` node with `opLoc`; a node
+    `lhs op rhs` with that operator position whose operands evaluate and whose operation fails reports at
+    `posOf src i` — the line and column of offset `i` — and the source text at offset `i` is the operator: -/
+theorem binop_fail_at_operator_text (hp : parseProg src = .ok stmts) {op : BinaryOp} {opLoc loc : Loc}
+    (hin : (binTok op, opLoc) ∈ kwsSL stmts) (k : Nat) {n : Nat} {σ σ1 σ2 σ3 : State} {sc : List Addr} {lhs rhs : Expr}
+    {l r : SVal} {e : Err} (h1 : evalExpr n σ sc lhs = .ok l σ1) (h2 : evalExpr n σ1 sc rhs = .ok r σ2)
+    (h3 : applyBinOp n σ2 op opLoc l.v r.v = .err e σ3) :
+    ∃ leaf i, OpFailLeaf op l.v r.v leaf ∧ i < src.length ∧ binText op <+: src.drop i ∧
+      evalExpr (n + k + 1) σ sc (.mk (.BinaryOp op opLoc lhs rhs) loc) = errAt (posOf src i) leaf σ2 := by
+  obtain ⟨leaf, hl, _, _, h⟩ := binop_fail_at_opLoc (loc := loc) k h1 h2 h3
+  obtain ⟨i, hi, hpos, htxt⟩ := (binop_opLoc_is_operator_token hp hin).text (tokText_binTok op)
+  exact ⟨leaf, i, hl, hi, htxt, hpos ▸ h⟩
+/-- an instance: the program `y := x + s;` (the `+` at 1:8), evaluated where `x = 1`, `s = "a"` -/
+example (k : Nat) := binop_fail_at_operator_text (src := c!"y := x + s;\n") (parseProg_progOf (by decide +kernel))
+  (op := .Sum) (opLoc := (1, 8)) (loc := (1, 6)) (by decide +kernel) k (ex_x 0 (1, 6)) (ex_s 0 (1, 10))
+  (applyBinOp_type_mismatch 1 σe (1, 8) 1 _)
+
+/-- the chain `a op1 b op2 c` of a parsed program, first operator failing: reported at the first operator's own
+    characters -/
+theorem chain_inner_fails_at_operator_text (hp : parseProg src = .ok stmts) {op1 op2 : BinaryOp} {p1 p2 l1 l2 : Loc}
+    (hin : (binTok op1, p1) ∈ kwsSL stmts) (k : Nat) {n : Nat} {σ σ1 σ2 σ3 : State} {sc : List Addr} {a b c : Expr}
+    {va vb : SVal} {e : Err} (ha : evalExpr n σ sc a = .ok va σ1) (hb : evalExpr n σ1 sc b = .ok vb σ2)
+    (hop : applyBinOp n σ2 op1 p1 va.v vb.v = .err e σ3) :
+    ∃ leaf i, OpFailLeaf op1 va.v vb.v leaf ∧ i < src.length ∧ binText op1 <+: src.drop i ∧
+      evalExpr (n + k + 2) σ sc (.mk (.BinaryOp op2 p2 (.mk (.BinaryOp op1 p1 a b) l1) c) l2) =
+        errAt (posOf src i) leaf σ2 := by
+  obtain ⟨leaf, hl, h⟩ := chain_inner_fails (op2 := op2) (p2 := p2) (l1 := l1) (l2 := l2) (c := c) k ha hb hop
+  obtain ⟨i, hi, hpos, htxt⟩ := (binop_opLoc_is_operator_token hp hin).text (tokText_binTok op1)
+  exact ⟨leaf, i, hl, hi, htxt, hpos ▸ h⟩
+/-- `y := x + s + x;`: the first `+` at 1:8 -/
+example (k : Nat) := chain_inner_fails_at_operator_text (src := c!"y := x + s + x;\n") (parseProg_progOf (by decide +kernel))
+  (op1 := .Sum) (op2 := .Sum) (p1 := (1, 8)) (p2 := (1, 12)) (l1 := (1, 6)) (l2 := (1, 6)) (c := V c!"x" (1, 14))
+  (by decide +kernel) k (ex_x 0 (1, 6)) (ex_s 0 (1, 10)) (applyBinOp_type_mismatch 1 σe (1, 8) 1 _)
+
+/-- … second operator failing: reported at the second operator's own characters -/
+theorem chain_outer_fails_at_operator_text (hp : parseProg src = .ok stmts) {op1 op2 : BinaryOp} {p1 p2 l1 l2 : Loc}
+    (hin : (binTok op2, p2) ∈ kwsSL stmts) (k : Nat) {n : Nat} {σ σ1 σ2 σ3 σ4 σ5 : State} {sc : List Addr} {a b c : Expr}
+    {va vb vc : SVal} {v : Val} {e : Err} (ha : evalExpr n σ sc a = .ok va σ1) (hb : evalExpr n σ1 sc b = .ok vb σ2)
+    (hop : applyBinOp n σ2 op1 p1 va.v vb.v = .ok v σ3) (hc : evalExpr n σ3 sc c = .ok vc σ4)
+    (hop2 : applyBinOp n σ4 op2 p2 v vc.v = .err e σ5) :
+    ∃ leaf i, OpFailLeaf op2 v vc.v leaf ∧ i < src.length ∧ binText op2 <+: src.drop i ∧
+      evalExpr (n + k + 2) σ sc (.mk (.BinaryOp op2 p2 (.mk (.BinaryOp op1 p1 a b) l1) c) l2) =
+        errAt (posOf src i) leaf σ4 := by
+  obtain ⟨leaf, hl, h⟩ := chain_outer_fails (l1 := l1) (l2 := l2) k ha hb hop hc hop2
+  obtain ⟨i, hi, hpos, htxt⟩ := (binop_opLoc_is_operator_token hp hin).text (tokText_binTok op2)
+  exact ⟨leaf, i, hl, hi, htxt, hpos ▸ h⟩
+/-- `y := x + x + s;`: the second `+` at 1:12 -/
+example (k : Nat) := chain_outer_fails_at_operator_text (src := c!"y := x + x + s;\n") (parseProg_progOf (by decide +kernel))
+  (op1 := .Sum) (op2 := .Sum) (p1 := (1, 8)) (p2 := (1, 12)) (l1 := (1, 6)) (l2 := (1, 6))
+  (by decide +kernel) k (ex_x 0 (1, 6)) (ex_x 0 (1, 10))
+  (show applyBinOp 1 σe .Sum (1, 8) (.int 1) (.int 1) = .ok (.int 2) σe from by with_unfolding_all rfl)
+  (ex_s 0 (1, 14)) (applyBinOp_type_mismatch 1 σe (1, 12) 2 _)
+
+/-- **(2) on source text**, for `xs[i] op= rhs` (the other three targets alike): reported at the characters of `op=` -/
+theorem opAssign_index_fail_at_operator_text (hp : parseProg src = .ok stmts) {op : BinaryOp} {opLoc loc : Loc}
+    {w : List Char} (hin : (assignTok op, opLoc) ∈ kwsSL stmts) (hw : tokText (assignTok op) = some w) (k : Nat) {n : Nat}
+    {σ σ1 σ2 σ3 σ4 : State} {sc : List Addr} {rhs ex locat : Expr} {v cur : SVal} {e : Err} {a : Addr} {s : Option Val}
+    {i : Nat} {items : List SVal}
+    (h1 : evalExpr n σ sc rhs = .ok v σ1) (h2 : evalExpr n σ1 sc ex = .ok ⟨.list a, s⟩ σ2)
+    (h3 : evalToIndex n σ2 sc locat = .ok i σ3) (h4 : σ3.getList a = some items) (h5 : items[i]? = some cur)
+    (h6 : applyBinOp n σ3 op opLoc cur.v v.v = .err e σ4) :
+    ∃ leaf j, OpFailLeaf op cur.v v.v leaf ∧ j < src.length ∧ w <+: src.drop j ∧
+      evalStmt (n + k + 2) σ sc (.OpAssign (.mk (.Index ex locat) loc) op opLoc rhs) = errAt (posOf src j) leaf σ3 := by
+  obtain ⟨leaf, hl, _, h⟩ := opAssign_index_fail_at_opLoc (loc := loc) k h1 h2 h3 h4 h5 h6
+  obtain ⟨j, hj, hpos, htxt⟩ := (opAssign_opLoc_is_opassign_token hp hin).text hw
+  exact ⟨leaf, j, hl, hj, htxt, hpos ▸ h⟩
+/-- `xs[0] += "b";`: the `+=` at 1:7 -/
+example (k : Nat) := opAssign_index_fail_at_operator_text (src := c!"xs[0] += \"b\";\n") (parseProg_progOf (by decide +kernel))
+  (op := .Sum) (opLoc := (1, 7)) (loc := (1, 1)) (w := c!"+=") (by decide +kernel) rfl k
+  (ex_lit 3 c!"b" (1, 10)) (ex_xs 3 (1, 1))
+  (show evalToIndex 4 σe [0] (I 0 (1, 4)) = .ok 0 σe from by with_unfolding_all rfl)
+  (show σe.getList 1 = some [SVal.plain (.int 5)] from by rfl) (show [SVal.plain (.int 5)][0]? = some (SVal.plain (.int 5)) from rfl)
+  (applyBinOp_type_mismatch 4 σe (1, 7) 5 _)
+
+/-- **(4) on source text, top level** — no hypothesis about the tree beyond the parse: a run of the program's statements
+    that ends in a `break` escape is reported at `posOf src i`, and the source text at offset `i` is `break` -/
+theorem top_level_break_at_keyword_text (hp : parseProg src = .ok stmts) (k : Nat) {n : Nat} {l : Loc} {σ : State}
+    (h : evalStmts n progState [0] stmts = .ok (.brk l) σ) :
+    ∃ i, i < src.length ∧ c!"break" <+: src.drop i ∧
+      evalProg (n + k + 3) stmts = errAt (posOf src i) Leaf.BreakOutsideLoop σ := by
+  obtain ⟨i, hi, hpos, htxt⟩ := (break_loc_is_break_token hp (stmts_escape_from_list h)).text rfl
+  exact ⟨i, hi, htxt, hpos ▸ top_level_break_at_keyword k h⟩
+/-- an instance: `if true { break; }` at top level -/
+example (k : Nat) := top_level_break_at_keyword_text (src := c!"if true {\n  break;\n}\n") (parseProg_progOf (by decide +kernel)) k
+  (n := 8) (l := (2, 3)) (σ := (progState.alloc (.scope [])).2) (by with_unfolding_all rfl)
+
+theorem top_level_continue_at_keyword_text (hp : parseProg src = .ok stmts) (k : Nat) {n : Nat} {l : Loc} {σ : State}
+    (h : evalStmts n progState [0] stmts = .ok (.cont l) σ) :
+    ∃ i, i < src.length ∧ c!"continue" <+: src.drop i ∧
+      evalProg (n + k + 3) stmts = errAt (posOf src i) Leaf.ContinueOutsideLoop σ := by
+  obtain ⟨i, hi, hpos, htxt⟩ := (continue_loc_is_continue_token hp (stmts_escape_from_list h)).text rfl
+  exact ⟨i, hi, htxt, hpos ▸ top_level_continue_at_keyword k h⟩
+
+theorem top_level_return_at_keyword_text (hp : parseProg src = .ok stmts) (k : Nat) {n : Nat} {l : Loc} {v : SVal}
+    {σ : State} (h : evalStmts n progState [0] stmts = .ok (.ret v l) σ) :
+    ∃ i, i < src.length ∧ c!"return" <+: src.drop i ∧
+      evalProg (n + k + 3) stmts = errAt (posOf src i) Leaf.ReturnOutsideFunction σ := by
+  obtain ⟨i, hi, hpos, htxt⟩ := (return_loc_is_return_token hp (stmts_escape_from_list h)).text rfl
+  exact ⟨i, hi, htxt, hpos ▸ top_level_return_at_keyword k h⟩
+example (k : Nat) := top_level_return_at_keyword_text (src := c!"return 1;\n") (parseProg_progOf (by decide +kernel)) k
+  (n := 4) (l := (1, 1)) (v := SVal.plain (.int 1)) (σ := progState) (by with_unfolding_all rfl)
+
+/-- **(4) on source text, a called function.**  `hbody`: the body of the called function is code of the program (true
+    for a function declared by a statement of the program: `func_body_sub`; that every function cell reachable in a run
+    has this property is the labelled form of the heap invariant `PosInv` of C18EvalPos.lean — not proved here).  A
+    `break` that escapes the body is reported at `posOf src i` with the source text `break` at offset `i` — at the
+    keyword inside the function, not at the call -/
+theorem break_escaping_call_at_keyword_text (hp : parseProg src = .ok stmts) (k : Nat) {n : Nat} {σ σ1 σ2 σ4 : State}
+    {sc : List Addr} {loc l : Loc} {f : Expr} {args : List ListItem} {argVals : List SVal} {a : Addr} {s : Option Val}
+    {fr : FuncRec} (hbody : ∀ y, y ∈ kwsSL fr.stmts → y ∈ kwsSL stmts)
+    (h1 : evalListItems n σ sc args [] = .ok argVals σ1) (h2 : evalExpr n σ1 sc f = .ok ⟨.func a, s⟩ σ2)
+    (h3 : σ2.getFunc a = some fr)
+    (hA : (fr.collect && decide (fr.args.length - 1 > argVals.length)) = false)
+    (hB : (!fr.collect && decide (fr.args.length ≠ argVals.length)) = false)
+    (h4 : evalBlock n (callFrame σ2 fr ⟨.func a, s⟩ argVals loc).2 fr.closure (callFrame σ2 fr ⟨.func a, s⟩ argVals loc).1 fr.stmts
+      = .ok (.brk l) σ4) :
+    ∃ i, i < src.length ∧ c!"break" <+: src.drop i ∧
+      evalExpr (n + k + 2) σ sc (.mk (.Call f args) loc) = errAt (posOf src i) Leaf.BreakOutsideLoop σ4 := by
+  obtain ⟨i, hi, hpos, htxt⟩ := (break_loc_is_break_token hp (hbody _ (block_escape_from_list h4))).text rfl
+  exact ⟨i, hi, htxt, hpos ▸ break_escaping_call_at_keyword k h1 h2 h3 hA hB h4⟩
+
+theorem continue_escaping_call_at_keyword_text (hp : parseProg src = .ok stmts) (k : Nat) {n : Nat} {σ σ1 σ2 σ4 : State}
+    {sc : List Addr} {loc l : Loc} {f : Expr} {args : List ListItem} {argVals : List SVal} {a : Addr} {s : Option Val}
+    {fr : FuncRec} (hbody : ∀ y, y ∈ kwsSL fr.stmts → y ∈ kwsSL stmts)
+    (h1 : evalListItems n σ sc args [] = .ok argVals σ1) (h2 : evalExpr n σ1 sc f = .ok ⟨.func a, s⟩ σ2)
+    (h3 : σ2.getFunc a = some fr)
+    (hA : (fr.collect && decide (fr.args.length - 1 > argVals.length)) = false)
+    (hB : (!fr.collect && decide (fr.args.length ≠ argVals.length)) = false)
+    (h4 : evalBlock n (callFrame σ2 fr ⟨.func a, s⟩ argVals loc).2 fr.closure (callFrame σ2 fr ⟨.func a, s⟩ argVals loc).1 fr.stmts
+      = .ok (.cont l) σ4) :
+    ∃ i, i < src.length ∧ c!"continue" <+: src.drop i ∧
+      evalExpr (n + k + 2) σ sc (.mk (.Call f args) loc) = errAt (posOf src i) Leaf.ContinueOutsideLoop σ4 := by
+  obtain ⟨i, hi, hpos, htxt⟩ := (continue_loc_is_continue_token hp (hbody _ (block_escape_from_list h4))).text rfl
+  exact ⟨i, hi, htxt, hpos ▸ continue_escaping_call_at_keyword k h1 h2 h3 hA hB h4⟩
+/-- an instance: the program `exBreak'` = `fn f() { break; }  f();`, in a state where `f` is the function cell 1 holding
+    the body of the function statement (the state the program is in when it reaches the call) -/
+def exBreak' : List Char := c!"fn f() {\n    break;\n}\nf();\n"
+def frX : FuncRec := ⟨some c!"f", [], false, [.Break (2, 5)], [0]⟩
+def σf : State :=
+  ⟨#[.scope [(c!"f", SVal.plain (.func 1), (1, 4)), (c!"print", SVal.plain (.builtin c!"print" .print), (0, 0))], .func frX], []⟩
+example (k : Nat) := break_escaping_call_at_keyword_text (src := exBreak') (parseProg_progOf (by decide +kernel)) k
+  (fr := frX) (loc := (4, 1)) (l := (2, 5)) (σ4 := (σf.alloc (.scope [])).2) (by decide +kernel)
+  (show evalListItems 3 σf [0] [] [] = .ok [] σf from by with_unfolding_all rfl)
+  (show evalExpr 3 σf [0] (V c!"f" (4, 1)) = .ok ⟨.func 1, none⟩ σf from by with_unfolding_all rfl)
+  (show σf.getFunc 1 = some frX from by rfl) rfl rfl (by with_unfolding_all rfl)
+
+end src
+
+/-! ## whole-pipeline runs (`Seed.run`: lex → parse → evaluate → render): the reported `line:column` is the position of
+    the operator / keyword, and the character at that position of the source is the operator / the keyword's first -/
+
+/-- `a + b + c`, the FIRST `+` fails (`1 + "s"`): reported at 4:8, the first `+` (offset 33) -/
+def exChain1 : List Char := c!"a := 1;\nb := \"s\";\nc := 2;\nx := a + b + c;\n"
+example : (run 60 c!"t.sd" exChain1).stderr = c!"t.sd:4:8: can't apply '+' to 'int' and 'string'\n" ∧
+    posOf exChain1 33 = (4, 8) ∧ exChain1[33]? = some '+' ∧ exChain1[37]? = some '+' ∧
+    kwsSL (progOf exChain1) = [(.Sum, (4, 12)), (.Sum, (4, 8))] := by decide +kernel
+
+/-- `a + b + c`, the SECOND `+` fails (`3 + "s"`): reported at 4:12, the second `+` (offset 37) -/
+def exChain2 : List Char := c!"a := 1;\nb := 2;\nc := \"s\";\nx := a + b + c;\n"
+example : (run 60 c!"t.sd" exChain2).stderr = c!"t.sd:4:12: can't apply '+' to 'int' and 'string'\n" ∧
+    posOf exChain2 37 = (4, 12) ∧ exChain2[37]? = some '+' := by decide +kernel
+
+/-- the chain over three lines: the second `+` is on line 5, column 6 -/
+def exChain3 : List Char := c!"a := 1;\nb := 2;\nc := \"s\";\nx := a +\n   b +\n     c;\n"
+example : (run 60 c!"t.sd" exChain3).stderr = c!"t.sd:5:6: can't apply '+' to 'int' and 'string'\n" ∧
+    posOf exChain3 40 = (5, 6) ∧ exChain3[40]? = some '+' := by decide +kernel
+
+/-- … the hypotheses of `binop_fail_at_operator_text` for it: the program parses and its tree has the two `+` nodes -/
+example : parsesOk exChain3 = true ∧ (binTok .Sum, (5, 6)) ∈ kwsSL (progOf exChain3) ∧
+    (binTok .Sum, (4, 8)) ∈ kwsSL (progOf exChain3) := by decide +kernel
+
+/-- a `break` inside a called function: reported at 2:5, the keyword (offset 13) — not at the call `f()` on line 4, and
+    without a stack trace -/
+def exBreak : List Char := c!"fn f() {\n    break;\n}\nf();\n"
+example : (run 60 c!"t.sd" exBreak).stderr = c!"t.sd:2:5: 'break' can't be used outside of a loop\n" ∧
+    posOf exBreak 13 = (2, 5) ∧ (exBreak.drop 13).take 5 = c!"break" ∧
+    kwsSL (progOf exBreak) = [(.Ident c!"f", (1, 4)), (.Break, (2, 5))] := by decide +kernel
+
+/-- a `continue` in an `if` of a function called from inside a loop: the loop of the CALLER does not catch it; reported at
+    the keyword 3:5 (offset 25) -/
+def exContinue : List Char := c!"fn f() {\n  if true {\n    continue;\n  }\n}\nwhile true {\n  f();\n}\n"
+example : (run 80 c!"t.sd" exContinue).stderr = c!"t.sd:3:5: 'continue' can't be used outside of a loop\n" ∧
+    posOf exContinue 25 = (3, 5) ∧ (exContinue.drop 25).take 8 = c!"continue" := by decide +kernel
+
+/-- `return` at top level: at the keyword -/
+example : (run 60 c!"t.sd" c!"x := 1;\nreturn x;\n").stderr = c!"t.sd:2:1: 'return' can't be used outside of a function\n" := by
+  decide +kernel
+
+/-- op-assignment on a list element: at the `+=` (2:9, offset 19), not at the target `xs[0]` (2:1) -/
+def exOpAssign : List Char := c!"xs := [1];\nxs[0]   += \"a\";\n"
+example : (run 60 c!"t.sd" exOpAssign).stderr = c!"t.sd:2:9: can't apply '+' to 'int' and 'string'\n" ∧
+    posOf exOpAssign 19 = (2, 9) ∧ (exOpAssign.drop 19).take 2 = c!"+=" ∧
+    kwsSL (progOf exOpAssign) = [(.SumEquals, (2, 9))] := by decide +kernel
+
+/-- … on a property, and an overflow on a variable -/
+example : (run 60 c!"t.sd" c!"o := {\"k\": 1};\no.k   -= \"a\";\n").stderr =
+      c!"t.sd:2:7: can't apply '-' to 'int' and 'string'\n" ∧
+    (run 60 c!"t.sd" c!"x := 9223372036854775807;\nx   *= 2;\n").stderr =
+      c!"t.sd:2:5: '9223372036854775807 * 2' caused an integer overflow\n" := by decide +kernel
+
+/-- (3), (5), (6) through the pipeline: a negative index at the index expression (2:11, not the node 2:6), the range
+    end at the end expression (1:11), `for` over an int at the iterable (1:10) -/
+example : (run 60 c!"t.sd" c!"xs := [1];\ny := xs[  -1];\n").stderr = c!"t.sd:2:11: index can't be negative\n" ∧
+    (run 60 c!"t.sd" c!"x := 1 .. \"a\";\n").stderr = c!"t.sd:1:11: range end must be 'int', got 'string'\n" ∧
+    (run 60 c!"t.sd" c!"for v in 1 { }\n").stderr =
+      c!"t.sd:1:10: 'for' iterator must be a 'list', 'object' or 'string'\n" := by decide +kernel
 
 end Seed.C18A
